@@ -139,7 +139,9 @@ func (p Precompile) WithdrawDelegatorRewards(
 
 	// NOTE: This ensures that the changes in the bank keeper are correctly mirrored to the EVM stateDB.
 	// This prevents the stateDB from overwriting the changed balance in the bank keeper when committing the EVM state.
-	if isContractDelegator {
+	// The rewards are paid to the delegator's withdraw address: the caller's balance only changed if that is the caller.
+	withdrawAddr := p.distributionKeeper.GetDelegatorWithdrawAddr(ctx, delegatorHexAddr.Bytes())
+	if isContractDelegator && common.BytesToAddress(withdrawAddr) == contract.CallerAddress {
 		stateDB.(*statedb.StateDB).AddBalance(contract.CallerAddress, res.Amount[0].Amount.BigInt())
 	}
 
